@@ -34,24 +34,25 @@ impl Sub for Matrix {
             (
                 Matrix {
                     n,
+                    m,
                     data: mut a,
                     storage: MatrixStorage::Full,
-                    ..
                 },
                 Matrix {
                     n: n2,
+                    m: m2,
                     data: b,
                     storage: MatrixStorage::Full,
-                    ..
                 },
             ) => {
                 assert_eq!(n, n2, "dimension mismatch in Matrix - Matrix");
+                assert_eq!(m, m2, "dimension mismatch in Matrix - Matrix");
                 for (x, y) in a.iter_mut().zip(b.iter()) {
                     *x -= *y;
                 }
                 Matrix {
                     n,
-                    m: n,
+                    m,
                     data: a,
                     storage: MatrixStorage::Full,
                 }
